@@ -397,6 +397,12 @@ func (tg *target) run(b []byte) outcome {
 func (tg *target) verdict(b []byte, o outcome) error {
 	if o.panic != nil {
 		key := o.panic.Key()
+		if k := reencodeKey(tg.name, b, o); k != "" {
+			// the encoder's refusal of a value decoded from shared sub-tables
+			// (shared_test.go): a recorded finding, matched by call site and
+			// by the sharing found in the input
+			key = k
+		}
 		if stats.Known("C02", key) {
 			return nil
 		}
